@@ -99,6 +99,13 @@ def exec : List Sexp → String
       let text := printVal x
       strHex text ++ " rt=" ++ boolStr (parsesTo (mkEnv bl) text (fun e => Expr.beq e (exprOf x)))
     | _, _ => "bad-op"
+  | [.atom "rt-objlit", name, ih, bad] =>
+    -- the written form of an object instance: type name + init hash → text, and what that text parses to
+    match strArg name, valOf ih, badList bad with
+    | some n, some (.hash es), some bl =>
+      let text := printVal (.obj n es)
+      strHex text ++ " " ++ outcomeStr (parse (mkEnv bl) (syms text))
+    | _, _, _ => "bad-op"
   | [.atom "rt-tval", v, bad, fl] =>
     -- a value that holds types: print, parse, resolve the type expressions (`types.ResolveDeferred`), compare
     match badList bad, floatTable fl with
